@@ -1,4 +1,5 @@
 import AgModel.Props.C01
+import AgModel.Props.C01Cluster
 import AgModel.Props.C02
 import AgModel.Props.C03
 import AgModel.Props.C03Pool
